@@ -365,6 +365,48 @@ def query_expect(regions, x):
     return None      # not judged: overlapping regions
 
 
+
+# ----------------------------------------------------------------------------- CPU contexts (documented layouts)
+# field widths in declaration order (winnt.h CONTEXT for x86/amd64/arm64, Breakpad's MDRawContextARM)
+CTX_X86 = [4] * 7 + ([4] * 7 + [1] * 80 + [4]) + [4] * 16 + [1] * 512
+CTX_AMD64 = [8] * 6 + [4, 4] + [2] * 6 + [4] + [8] * 6 + [8] * 17 + [1] * 512 + [16] * 26 + [8] * 6
+CTX_ARM = [4] + [4] * 16 + [4] + [8] + [8] * 32 + [4] * 8
+CTX_ARM64 = [4, 4] + [8] * 31 + [8, 8] + [16] * 32 + [4, 4] + [4] * 8 + [8] * 8 + [4] * 2 + [8] * 2
+CTX_CPU_MASK = 0xffffff00
+CTX_ALL = 0x80000 | 0xc0 | 0x40 | 0x20000 | 0x100000 | 0x40000000 | 0x400000 | 0x80000000 | 0x40000 | 0x80000 | 0x20000000 | 0x1000000 | 0x10000000 | 0x10000
+CTX = {0: (CTX_X86, 0, 0x10000), 10: (CTX_X86, 0, 0x10000), 9: (CTX_AMD64, 6, 0x100000), 5: (CTX_ARM, 0, 0x40000000), 12: (CTX_ARM64, 0, 0x400000)}
+
+
+def ctx_size(arch):
+    return sum(CTX[arch][0])
+
+
+def ctx_expect(m, blob):
+    if m.get("sys") is None:
+        return [-3]
+    arch = m["sys"]["ints"][0]
+    if arch not in CTX:
+        return [-2]
+    if blob is None:
+        return [-1]
+    widths, idx, const = CTX[arch]
+    b = blob.b
+    if len(b) < sum(widths):
+        return [-1]
+    order = "big" if m["endian"] == 1 else "little"
+    out, o = [], 0
+    for w in widths:
+        v = int.from_bytes(b[o:o + w], order)
+        o += w
+        if w == 16:
+            out += [v >> 64, v & U64]
+        else:
+            out.append(v)
+    if (out[idx] & CTX_CPU_MASK & CTX_ALL) != const:
+        return [-1]
+    return [1] + out
+
+
 def expected(m):
     """section name -> (status, items) or None when the model is outside what the property fixes
     (then only the Coq model is compared with the implementation). items may contain None = not judged."""
@@ -409,6 +451,8 @@ def expected(m):
                     it += [b] + blob4(bl.b)
                 else:
                     it = None
+            if it is not None:
+                it = it + ctx_expect(m, t["ctx"])
             out.append(it)
         return out
 
@@ -433,7 +477,7 @@ def expected(m):
     E["memq"] = sec("mem", lambda l: all(len(b.b) > 0 for _, b in l), lambda l: [query_expect(l, x) for x in queries(l)])
     E["m64"] = sec("m64", lambda l: True, lambda l: [[b] + blob4(bl.b) for b, bl in l])
     E["m64q"] = sec("m64", lambda l: True, lambda l: [query_expect(l, x) for x in queries(l)])
-    E["exc"] = sec("exc", lambda x: True, lambda x: [x["ints"] + x["info"]])
+    E["exc"] = sec("exc", lambda x: True, lambda x: [x["ints"] + x["info"] + ctx_expect(m, x["ctx"])])
 
     def tn_items(l):
         d = {}
@@ -503,7 +547,7 @@ def synth_view(m):
         s["mod"] = [dict(x, misc=[0, 0], res=[0, 0, 0, 0]) for x in m["mod"]]
     if m.get("exc") is not None:
         x = m["exc"]
-        s["exc"] = dict(x, ints=[x["ints"][0], 0] + x["ints"][2:7] + [0])
+        s["exc"] = dict(x, ints=[x["ints"][0], 0] + x["ints"][2:7] + [0], ctx=Blob(b=b""))   # (0, 0) location: empty
     if m.get("mi") is not None:
         s["mi"] = [[r[0], r[1], r[2], 0, r[4], r[5], r[6], r[7], 0] for r in m["mi"]]
     s["misc"] = None
@@ -578,6 +622,29 @@ class Gen:
         n = max(0, min(n, maxn, budget[0]))
         budget[0] -= n
         return Blob(n=n, seed=r.below(256))
+
+    def context(self, arch, budget):
+        """a context blob for the dump's architecture: mostly the right size with valid flags"""
+        r = self.r
+        if arch not in CTX or r.chance(1, 5):
+            return self.blob(1400, budget)
+        widths, idx, const = CTX[arch]
+        size = sum(widths)
+        b = bytearray(r.below(256) if r.chance(1, 3) else 0 for _ in range(size))
+        st = r.below(10)
+        flags = const | r.choice([0, 1, 0x3f, 0x7f, 0x40])
+        if st == 0:
+            flags = r.choice([0, 0x10000, 0x100000, 0x400000, 0x40000000, 0x80000000, const | 0x20000, r.below(1 << 32)])
+        off = sum(widths[:idx])
+        b[off:off + 4] = flags.to_bytes(4, "little")      # patched to the dump's byte order in model()
+        if st == 1:
+            b = b[:r.below(size)]
+        elif st == 2:
+            b += bytes(r.below(64))
+        budget[0] -= len(b)
+        bl = Blob(b=bytes(b))
+        bl.flags_at = off if len(b) >= off + 4 else None
+        return bl
 
     def addr(self):
         r = self.r
@@ -679,7 +746,7 @@ class Gen:
 
         if present["sys"]:
             plat = r.choice([2, 3, 0x8101, 0x8102, 0x8201, 0x8203, 0x8202, 1, 0, 0x8000, self.u(32)])
-            m["sys"] = {"ints": [r.choice([0, 9, 5, 12, 3, 0x8001, 0x8003, 1, 10, self.u(16)]), self.u(16), self.u(16), self.u(8), self.u(8),
+            m["sys"] = {"ints": [r.choice([0, 9, 9, 5, 12, 12, 0, 3, 0x8001, 0x8003, 1, 10, self.u(16)]), self.u(16), self.u(16), self.u(8), self.u(8),
                                  self.u(32), self.u(32), self.u(32), plat, self.u(16), self.u(16)],
                         "cpu": [r.below(256) for _ in range(24)], "csd": units() if (wf or r.chance(5, 6)) else None}
         regions = None
@@ -711,7 +778,8 @@ class Gen:
                         sbase = max(0, min(U64, pb + r.choice([0, 0, len(pbl.b) - 1, len(pbl.b), -1, 1])))
                 elif len(stack.b) == 0 and wf:
                     stack = Blob(b=[1, 2, 3])
-                ctx = self.blob(1400, budget) if (wf or r.chance(7, 8)) else None
+                arch = m["sys"]["ints"][0] if m.get("sys") else None
+                ctx = self.context(arch, budget) if (wf or r.chance(7, 8)) else None
                 l.append({"ints": [self.u(32) if r.chance(1, 2) else r.below(5), self.u(32), self.u(32), self.u(32), self.u(64)],
                           "sbase": sbase, "stack": stack, "ctx": ctx})
             m["thr"] = l
@@ -727,7 +795,8 @@ class Gen:
             m["mod"] = l
         if present["exc"]:
             m["exc"] = {"ints": [self.u(32), self.u(32), self.u(32), self.u(32), self.u(64), self.u(64), r.below(16) if r.chance(3, 4) else self.u(32), self.u(32)],
-                        "info": [self.u(64) for _ in range(15)], "ctx": self.blob(1400, budget) if r.chance(7, 8) else None}
+                        "info": [self.u(64) for _ in range(15)],
+                        "ctx": self.context(m["sys"]["ints"][0] if m.get("sys") else None, budget) if r.chance(7, 8) else None}
         if present["tnm"]:
             m["tnm"] = [(r.below(6) if r.chance(1, 2) else self.u(32), units()) for _ in range(self.count())]
         if present["unl"]:
@@ -754,6 +823,27 @@ class Gen:
                     ints.append(self.u(32))
             m["misc"] = (k, ints)
         return m
+
+
+def with_endian(m, en):
+    """the same model for the other byte order: context blobs keep their register VALUES, so the
+    context_flags word planted by the generator is stored in the dump's byte order"""
+    mm = dict(m, endian=en)
+
+    def fix(bl):
+        off = getattr(bl, "flags_at", None) if bl is not None else None
+        if en == 0 or off is None:
+            return bl
+        b = bytearray(bl.b)
+        b[off:off + 4] = bytes(reversed(b[off:off + 4]))
+        nb = Blob(b=bytes(b))
+        return nb
+
+    if mm.get("thr") is not None:
+        mm["thr"] = [dict(t, ctx=fix(t["ctx"])) for t in mm["thr"]]
+    if mm.get("exc") is not None:
+        mm["exc"] = dict(mm["exc"], ctx=fix(mm["exc"]["ctx"]))
+    return mm
 
 
 def hexline(h, tag, toks):
@@ -795,7 +885,8 @@ class C02(PropBase):
         "correspondence run on identical bytes and by the synth cross-check; C08 range-table model for memory_at_address",
         "extraction: ExtrOcamlBasic only; ocaml/zconv.ml + ocaml/c02/main.ml; harness/src/bin/c02.rs",
     ]
-    assumptions = ["thread/exception CPU contexts are carried as opaque byte blobs: the reader's accessors for them are private, so their content is not observed",
+    assumptions = ["thread/exception CPU contexts are byte blobs in the theorems; their interpretation (x86/amd64/arm/arm64 layouts regenerated from format.rs, "
+                   "context_flags test) is compared field by field in the correspondence run and recomputed by the oracle; other architectures are not modelled",
                    "Linux maps, handles, Crashpad annotations and other free-text streams are outside the model",
                    "lossy UTF-8 decoding of PDB file names and UTF-16 -> String conversion are exercised (Python re-derives them), not modelled in Coq"]
     manifest = {
@@ -807,7 +898,7 @@ class C02(PropBase):
                 "The model is tied to the code by reading the same Coq-serialized bytes with the real Minidump::read/get_stream and with the extracted decoder, "
                 "by a cross-check against minidump-synth, and by an independent Python oracle.",
         "note": "Trusted: Coq kernel; layout translator; hand-written reader model (correspondence-checked, not verified against the Rust source); "
-                "extraction + OCaml/Rust glue. CPU context contents and free-text streams are not covered.",
+                "extraction + OCaml/Rust glue. CPU context interpretation is correspondence-only (4 architectures); free-text streams are not covered.",
     }
 
     # ---- stage 1: models -> bytes through the extracted serializer
@@ -822,7 +913,7 @@ class C02(PropBase):
     def gen_models(self, tier, seed):
         rng = Rng(seed)
         g = Gen(rng, tier)
-        n = 260 if tier == "quick" else 3000
+        n = 460 if tier == "quick" else 3000
         models = []
         for i in range(n):
             models.append(g.model(well_formed=(i % 3 != 2)))
@@ -861,7 +952,7 @@ class C02(PropBase):
         toks = []
         for m in models:
             for en in (0, 1):
-                mm = dict(m, endian=en)
+                mm = with_endian(m, en)
                 toks.append((mm, model_tokens(mm)))
         hexes = self.encode_all([t for _, t in toks])
         cases = []
@@ -889,6 +980,18 @@ class C02(PropBase):
             new_items.append(self.fix_module_item(it))
         got[3] = (st, new_items)
         return ";".join("%d:%s" % (s, "|".join(fmt_item(i) for i in its)) for s, its in got)
+
+    @staticmethod
+    def mask_debug_id(it):
+        """ELF modules: the debug id is the build id read as a GUID in the dump's byte order (by design)"""
+        i = 4 + 13 + 2 + 4
+        i += 1 + it[i]
+        if it[i] != 3:
+            return it
+        i += 1
+        i += 1 + it[i]
+        n = 1 if it[i] == -1 else 1 + it[i]
+        return it[:i] + [-9] + it[i + n:]
 
     @staticmethod
     def fix_module_item(it):
@@ -950,17 +1053,25 @@ class C02(PropBase):
     def extra(self, ctx):
         out = []
         cases = ctx["cases"]
+        if ctx.get("replay") and len(cases) == 1:
+            return self.replay_twin(ctx, cases[0])
         for prof, ans in ctx["impl"].items():
-            by_model = {}
-            for i, c in enumerate(cases):
+            pairs = []
+            heads = []
+            for c in cases:
                 try:
                     h, tag, rest = c.split(" ", 2)
+                    heads.append((rest.split(" ", 6)[:6], rest.count(" ")))
                 except ValueError:
-                    continue
-                en, _, body = rest.partition(" ")
-                by_model.setdefault(body, {})[en] = i
-            for body, d in by_model.items():
-                if "0" not in d or "1" not in d or ans[d["0"]] is None or ans[d["1"]] is None:
+                    heads.append(None)
+            for i in range(len(cases) - 1):
+                a0, b0 = heads[i], heads[i + 1]
+                # adjacent lines = one model in both byte orders (same header fields, same token count)
+                if a0 and b0 and a0[0][0] == "0" and b0[0][0] == "1" and a0[0][1:] == b0[0][1:] and a0[1] == b0[1]:
+                    pairs.append({"0": i, "1": i + 1})
+            ctx["info"]["le_be_pairs_compared"] = len(pairs)
+            for d in pairs:
+                if ans[d["0"]] is None or ans[d["1"]] is None:
                     continue
                 a = self.endian_neutral(cases[d["0"]], ans[d["0"]])
                 b = self.endian_neutral(cases[d["1"]], ans[d["1"]])
@@ -971,19 +1082,54 @@ class C02(PropBase):
                                         % (SECTIONS[k] if 0 <= k < len(SECTIONS) else "?", str(a[k])[:200] if k >= 0 else "", str(b[k])[:200] if k >= 0 else "")})
         return out
 
+    def replay_twin(self, ctx, case):
+        """--replay of a single case: serialize the same model in the other byte order and compare"""
+        out = []
+        try:
+            h, tag, rest = case.split(" ", 2)
+            toks = [int(x) for x in rest.split()]
+            parse_model(toks)
+        except Exception:
+            return out
+        toks[0] = 1 - toks[0]
+        h2 = self.encode_all([toks])[0]
+        twin = hexline(h2, "N", toks)
+        for prof, ans in ctx["impl"].items():
+            if not ans or ans[0] is None:
+                continue
+            exe = ctx["exes"][(self.bins[0], prof)]
+            tans, dead = vlib.run_lines([exe], [twin], timeout=120, mem_gb=self.impl_mem_gb)
+            if dead or tans[0] is None:
+                out.append({"case": twin, "profile": prof, "found_input": True, "what": "implementation died on the other byte order of this model"})
+                continue
+            a = self.endian_neutral(case, ans[0])
+            b = self.endian_neutral(twin, tans[0])
+            if a != b:
+                k = next((i for i, (x, y) in enumerate(zip(a, b)) if x != y), -1)
+                out.append({"case": case, "profile": prof, "found_input": True,
+                            "what": "the same model written little- and big-endian parses differently in section %s: this %s / other %s"
+                                    % (SECTIONS[k] if 0 <= k < len(SECTIONS) else "?", str(a[k])[:200] if k >= 0 else "", str(b[k])[:200] if k >= 0 else "")})
+        return out
+
     def endian_neutral(self, case, ans):
         got = parse_answer(ans.split(" ## ")[0])
         if got is None:
             return ["READFAIL"]
         got[0] = (got[0][0], [it[1:] for it in got[0][1]])
+        # CPU contexts are byte blobs in the model: the same bytes are different register values in the
+        # other byte order, so the parsed registers are not part of the LE/BE comparison
+        got[2] = (got[2][0], [it[:7] if len(it) > 6 and it[6] == -1 else it[:11] for it in got[2][1]])
+        got[8] = (got[8][0], [it[:23] for it in got[8][1]])
         try:
             _, _, m = parse_case(case)
         except Exception:
             return got
         # byte-order dependent by design: the ELF debug id (GUID read in the dump's byte order) and
         # raw CodeView blobs whose signature is only recognised in one byte order
-        if m.get("mod") is not None and any(x["cv"][0] in (3, 4) for x in m["mod"]):
-            got[3] = (got[3][0], "ELF/unknown CodeView: not compared")
+        if m.get("mod") is not None and any(x["cv"][0] == 4 for x in m["mod"]):
+            got[3] = "raw CodeView blob of unknown kind: not compared"
+        elif m.get("mod") is not None and any(x["cv"][0] == 3 for x in m["mod"]) and got[3][0] == 2:
+            got[3] = (2, [self.mask_debug_id(it) for it in got[3][1]])
         return got
 
 
